@@ -34,9 +34,10 @@ def main():
     if "--round2" in sys.argv:
         src = f"/tmp/seed2-{prop}-out"
         name = f"{prop}-{int(k) + 2}"
-    if "--round3" in sys.argv:
-        src = f"/tmp/seed3-{prop}-out"
-        name = f"{prop}-{int(k) + 4}"
+    if "--round3" in sys.argv or "--round4" in sys.argv:
+        rnd = 4 if "--round4" in sys.argv else 3
+        src = f"/tmp/seed{rnd}-{prop}-out"
+        name = f"{prop}-{int(k) + 2 * (rnd - 1)}"
     patch = os.path.join(src, f"patch{k}.diff")
     demo = os.path.join(src, f"demo{k}.py")
     out = f"/verif/seeded/{name}"
